@@ -200,6 +200,18 @@ Definition render_table (share : Z -> Z -> Z -> Z) (s : tstyle) (n : nat) (heade
         draw_border ind bl (b_hb b) (b_bl b) (b_cb b) (b_br b))
   end.
 
+(* the shape of a style under which the drawn lines form a rectangle (true of the four presets; checked on every case) *)
+Definition is_nil (s : str) : bool := match s with [] => true | _ => false end.
+Definition wf_borderb (vl vc vr lc l c r : str) : bool :=
+  ((zlen lc =? 1)%Z && (zlen l =? zlen vl)%Z && (zlen c =? zlen vc)%Z && (zlen r =? zlen vr)%Z)
+  || (is_nil lc && is_nil l && is_nil c && is_nil r).
+Definition wf_styleb (s : tstyle) : bool :=
+  let b := t_border s in
+  (zlen (t_pad s) =? 1)%Z && (zlen (t_hpre s ++ t_hsuf s) =? zlen (t_cpre s ++ t_csuf s))%Z &&
+  wf_borderb (b_vl b) (b_vc b) (b_vr b) (b_ht b) (b_tl b) (b_ct b) (b_tr b) &&
+  wf_borderb (b_vl b) (b_vc b) (b_vr b) (b_hc b) (b_cl b) (b_cc b) (b_cr b) &&
+  wf_borderb (b_vl b) (b_vc b) (b_vr b) (b_hb b) (b_bl b) (b_cb b) (b_br b).
+
 (* ---- wire ---- *)
 Definition dec_bstyle (s : sexp) : option bstyle :=
   match dList dStr s with
@@ -226,7 +238,7 @@ Definition run_C14 (share : Z -> Z -> Z -> Z) (s : sexp) : sexp :=
   | L [A 0%Z; A W; A ind; A n; sty; header; rows] =>
     match dec_tstyle sty, dList dStr header, dList (dList dStr) rows with
     | Some sty, Some header, Some rows =>
-      sRes (fun x => L (enc_fit (fst x) ++ [sStr (snd x)])) (render_table share sty (Z.to_nat n) header rows W ind)
+      sRes (fun x => L (enc_fit (fst x) ++ [sStr (snd x); sB (wf_styleb sty)])) (render_table share sty (Z.to_nat n) header rows W ind)
     | _, _, _ => sBad
     end
   (* CellWrapper.fit alone *)
